@@ -806,6 +806,12 @@ class TextXMetaModel(DebugPrinter):
             if callback:
                 callback(other_model)
 
+        loaded_now = not model
+        if loaded_now and is_main_model and hasattr(self, "_tx_model_repository"):
+            known_before = set(self._tx_model_repository.all_models.filename_to_model)
+        else:
+            known_before = None
+
         if not model:
             # Read model from file
             if not model_str:
@@ -821,8 +827,28 @@ class TextXMetaModel(DebugPrinter):
                 is_main_model=is_main_model,
             )
 
-        for p in self._model_processors:
-            p(model, self)
+        try:
+            for p in self._model_processors:
+                p(model, self)
+        except:  # noqa
+            if known_before is not None and hasattr(model, "_tx_metamodel"):
+                # The load failed: models loaded by this attempt must not
+                # stay cached in the global repository.
+                from textx.scoping import (
+                    get_included_models,
+                    remove_models_from_repositories,
+                )
+
+                models = get_included_models(model)
+                remove_models_from_repositories(
+                    models,
+                    [
+                        m
+                        for m in models
+                        if not (m._tx_filename and abspath(m._tx_filename) in known_before)
+                    ],
+                )
+            raise
 
         return model
 
